@@ -43,7 +43,17 @@ Canonical(funs) == \A j \in 1..Len(funs) : Len(funs[j].ps) < 2 => funs[j].dord =
 
 ConfigsFor(mp) == {[mp |-> mp, funs |-> funs, bad |-> NoBad] :
                       funs \in UNION {[1..n -> FunChoices(mp)] : n \in 1..MaxFuns}}
-SmallConfigs == UNION {ConfigsFor(mp) : mp \in {m \in ModelLists : Len(m) <= (IF Tier = "quick" THEN 3 ELSE 4)}}
+\* four model parameters (thorough tier): the first function takes all four in any order, the optional
+\* second one an ordered subset of at most two (or is invariant); six of the 24 model orders
+FullPerms(mp) == {[ps |-> ps, dord |-> o] : ps \in SeqsOver(Range(mp), 4), o \in {"fwd", "rev"}}
+SmallFuns(mp) == {[ps |-> ps, dord |-> o] :
+                     ps \in {<<>>} \cup SeqsOver(Range(mp), 1) \cup SeqsOver(Range(mp), 2), o \in {"fwd", "rev"}}
+ConfigsFor4(mp) == {[mp |-> mp, funs |-> <<f1>>, bad |-> NoBad] : f1 \in FullPerms(mp)}
+                   \cup {[mp |-> mp, funs |-> <<f1, f2>>, bad |-> NoBad] : f1 \in FullPerms(mp), f2 \in SmallFuns(mp)}
+                   \cup {[mp |-> mp, funs |-> <<f2, f1>>, bad |-> NoBad] : f1 \in FullPerms(mp), f2 \in SmallFuns(mp)}
+SmallConfigs == UNION {ConfigsFor(mp) : mp \in {m \in ModelLists : Len(m) <= 3}}
+                \cup (IF Tier = "quick" THEN {}
+                      ELSE UNION {ConfigsFor4(mp) : mp \in {m \in ModelLists : Len(m) = 4 /\ m[1] = "a" }})
 \* misbehaving closures (C17): every position x {short, long, empty} on the configurations with P <= 2
 BadConfigs == UNION {{[c EXCEPT !.bad = b] : b \in BadChoices(c.funs) \ {NoBad}} :
                        c \in {c2 \in SmallConfigs : Len(c2.mp) <= 2 /\ Covers(c2.mp, c2.funs) /\ Canonical(c2.funs)}}
